@@ -383,6 +383,15 @@ DyVals == {Num(Mark[i]) : i \in 1..(K + 1)} \cup {Str("a")}
 \* nothing about the next one: the instances take p, q and both, and the replay runs them in both orders
 \* on one Resolved.
 FkKindSets == [1..5 -> {"dyn", "none"}]
+\* fork = "props": the two paths hang under two properties; "anyOf" / "contains": under two branches of one applicator
+\* that goes on after a branch has FAILED (whatever the failed branch entered is no longer in scope)
+FkBodyF(i, hk, fin, fork) ==
+  CASE i = 0 /\ fork = "anyOf" -> [anyOf |-> <<HopTo(1, hk), HopTo(2, hk)>>]
+    [] i = 0 /\ fork = "contains" -> [contains |-> HopTo(1, hk), unevaluatedItems |-> HopTo(2, hk)]
+    [] i = 0 -> [properties |-> [p |-> HopTo(1, hk), q |-> HopTo(2, hk)]]
+    [] i \in {1, 2} -> HopTo(3, hk)
+    [] i = 3 -> DyFinal(fin)
+    [] OTHER -> <<>>
 FkBody(i, hk, fin) ==
   CASE i = 0 -> [properties |-> [p |-> HopTo(1, hk), q |-> HopTo(2, hk)]]
     [] i \in {1, 2} -> HopTo(3, hk)
@@ -399,11 +408,20 @@ FkEmbedded(kinds, hk, fin) ==
 FkRemote(kinds, hk, fin) ==
   [docs |-> <<[uri |-> DyRootURI, s |-> [defs |-> [t |-> TNode(kinds[1], 0)]] @@ FkBody(0, hk, fin)]>>
              \o [j \in 1..4 |-> [uri |-> URI("http", "h1", TRUE, <<RN[j]>>), s |-> FkRes(j, kinds, hk, fin, FALSE)]]]
+FkResF(i, kinds, hk, fin, withId, fork) ==
+  (IF withId THEN [id |-> IdOf(RelRef(<<RN[i]>>))] ELSE <<>>) @@ [defs |-> [t |-> TNode(kinds[i + 1], i)]] @@ FkBodyF(i, hk, fin, fork)
+FkEmbeddedF(kinds, hk, fin, fork) ==
+  [docs |-> <<[uri |-> DyRootURI,
+               s |-> [defs |-> [t |-> TNode(kinds[1], 0)] @@ [i \in {RN[j] : j \in 1..4} |->
+                                    FkResF(CHOOSE j \in 1..4 : RN[j] = i, kinds, hk, fin, TRUE, fork)]]
+                     @@ FkBodyF(0, hk, fin, fork)]>>]
+FkForkCases(z) == {FkEmbeddedF(kinds, "ref", fin, fork) : kinds \in FkKindSets, fin \in FkFinals, fork \in {"anyOf", "contains"}}
 FkCases(z) ==
   UNION {{FkEmbedded(kinds, hk, fin), FkRemote(kinds, hk, fin)} :
            kinds \in FkKindSets, hk \in (IF K >= 2 THEN {"ref", "allOf", "dref"} ELSE {"ref"}), fin \in FkFinals}
 FkVals == {Obj([p |-> Num(Mark[i])]) : i \in 1..5} \cup {Obj([q |-> Num(Mark[i])]) : i \in 1..5}
           \cup {Obj([p |-> Num(Mark[i]), q |-> Num(Mark[j])]) : i \in 1..5, j \in 1..5}
+          \cup {Num(Mark[i]) : i \in 1..5} \cup {Arr(<<Num(Mark[i]), Num(Mark[j])>>) : i \in 1..5, j \in 1..5} \cup {Arr(<<Num(Mark[i])>>) : i \in 1..5}
 
 \* ------------------------------------------------------------ DUP: two resources with one URI (C14 only)
 \* Outside every other property's quantifier (which subschema such a reference designates is not
@@ -485,7 +503,13 @@ RemRef(f) == Ref(RelRef(<<"r.json">>), f)
 G5Rem0 == {[definitions |-> [x |-> d @@ [id |-> IdFrag("foo")]], ref |-> LocalRef(FragName("foo")), maximum |-> R_0] : d \in {IntS, [minimum |-> R_2]}}
           \cup {[definitions |-> [x |-> IntS @@ [id |-> IdFrag("foo")]]], [itemsArray |-> <<IntS>>, additionalItems |-> FalseS],
                 [depStrings |-> [a |-> <<"b">>]], IntS}
-G5Rem == G5Rem0 \cup {r @@ [schema |-> v] : r \in G5Rem0, v \in {D7http, D7https}}
+\* remote documents that declare ANOTHER dialect (2020-12, the draft-07 URI without "#", something unknown): the
+\* evaluator still works under the ROOT's draft - its draft-07 keywords apply there as anywhere else
+G5RemForeign == {r @@ [schema |-> v] : r \in {[depStrings |-> [a |-> <<"b">>]], [depSchemas |-> [a |-> [required |-> <<"b">>]]],
+                                              [itemsArray |-> <<IntS>>, additionalItems |-> FalseS], IntS,
+                                              [properties |-> [a |-> [depStrings |-> [a |-> <<"b">>]]]]},
+                                       v \in {D2020, "http://json-schema.org/draft-07/schema", "urn:unknown-dialect"}}
+G5Rem == G5Rem0 \cup {r @@ [schema |-> v] : r \in G5Rem0, v \in {D7http, D7https}} \cup G5RemForeign
 G5Roots == {[ref |-> RemRef(FragNone)], [properties |-> [a |-> [ref |-> RemRef(FragNone)]]],
             [items |-> [ref |-> RemRef(FragName("foo"))]], [ref |-> RemRef(FragName("foo"))],
             [allOf |-> <<[ref |-> RemRef(FragPtr(<<SegN("definitions", "x")>>))]>>],
@@ -517,7 +541,7 @@ Cases ==
     [] Family = "G4" -> G4Docs(0)
     [] Family = "G5" -> {u \in G5Docs(0) : ResolveOK(u, "d7")}
     [] Family = "DY" -> DyCases(0) \cup DyMixedCases(0)
-    [] Family = "FK" -> FkCases(0)
+    [] Family = "FK" -> FkCases(0) \cup FkForkCases(0)
     [] Family = "DUP" -> DupCases(0)
 InstSet ==
   CASE Family = "F1" -> ScalarVals
